@@ -213,6 +213,10 @@ def lift_ifexp(stmts):
             v = getattr(s, "value", None)
             if isinstance(s, (ast.Assign, ast.AnnAssign, ast.Return)) and isinstance(v, ast.IfExp):
                 a, b = copy.copy(s), copy.copy(s)
+                if isinstance(s, ast.Assign):       # (each branch its own target nodes: analyses keyed by node identity see two stores)
+                    a.targets, b.targets = copy.deepcopy(s.targets), copy.deepcopy(s.targets)
+                elif isinstance(s, ast.AnnAssign):
+                    a.target, b.target = copy.deepcopy(s.target), copy.deepcopy(s.target)
                 a.value, b.value = v.body, v.orelse
                 node = ast.copy_location(ast.If(test=v.test, body=rec([a]), orelse=rec([b])), s)
                 out.append(node)
@@ -1997,6 +2001,8 @@ class Canon:
                     x = node.targets[0].id
                     c, params, is_nt = todo[x]
                     call = node.value
+                    if not isinstance(call, ast.Call):
+                        raise NoCanon("a store that is no constructor call")
                     if any(isinstance(a, ast.Starred) for a in call.args) or any(k.arg is None for k in call.keywords) or len(call.args) > len(params):
                         raise NoCanon("record constructor with unpacking")
                     vals = dict(zip(params, call.args))
@@ -2557,6 +2563,8 @@ class Canon:
             return stmts
 
         def fields_of(c, call):
+            if not (isinstance(call, ast.Call) and isinstance(call.func, ast.Name) and call.func.id == c.name):
+                return None         # (a store the scan did not see as a constructor call: shared nodes)
             fs = [f for f in c.all_fields() if f.init]
             names = [f.name for f in fs]
             if any(isinstance(a, ast.Starred) for a in call.args) or any(k.arg is None for k in call.keywords) or len(call.args) > len(names):
